@@ -652,3 +652,66 @@ func c25CoalescedPostHandshake() *explore.Scenario {
 		},
 	}
 }
+
+// c25PaddedRecords — RFC 8446 5.4: a peer may pad the inner plaintext of any record with zero bytes. The
+// receiver delivers exactly the content, whatever the amount of padding, for every TLS 1.3 suite.
+func c25PaddedRecords() *explore.Scenario {
+	ids := []tls.ClientHelloID{tls.HelloGolang, tls.HelloChrome_Auto, tls.HelloFirefox_Auto}
+	sizes := []int{1, 5, 300, 16000}
+	pads := []int{0, 1, 2, 17, 255, 383}
+	suites := []uint16{tls.TLS_AES_128_GCM_SHA256, tls.TLS_AES_256_GCM_SHA384, tls.TLS_CHACHA20_POLY1305_SHA256}
+	return &explore.Scenario{
+		Name: "tls13-records-with-inner-padding",
+		Run: func(x *explore.X) (r explore.Result) {
+			id := ids[x.Choose("client", len(ids))]
+			suite := suites[x.Choose("suite", len(suites))]
+			size := sizes[x.Choose("size", len(sizes))]
+			pad := pads[x.Choose("padding", len(pads))]
+			what := fmt.Sprintf("%s suite %04x: a %d-byte record padded with %d zero bytes, an unpadded one, the first again", id.Client, suite, size, pad)
+			msg := payload(size, 0x3c)
+			var unhook func()
+			hs := peer.Run(peer.ClientConfig("example.com"), id, peer.ServerConfig(), peer.Opts{KeepOpen: true,
+				OnConns: func(_ *tls.UConn, s *tls.Conn) { unhook = installHooks(s, &connHooks{Suite13: suite}) },
+				ServerAfter: func(c *tls.Conn) error {
+					if err := tls.VerifWriteTLS13PaddedRecord(c, msg, pad); err != nil {
+						return err
+					}
+					if _, err := c.Write([]byte("between")); err != nil {
+						return err
+					}
+					return tls.VerifWriteTLS13PaddedRecord(c, msg, pad)
+				}})
+			if unhook != nil {
+				unhook()
+			}
+			defer hs.Finish()
+			if !hs.OK() || hs.U.ConnectionState().Version != tls.VersionTLS13 {
+				r.Obs = "no-tls13-handshake"
+				return
+			}
+			r.Nontrivial = true
+			r.Class = what
+			want := append(append(append([]byte(nil), msg...), []byte("between")...), msg...)
+			got := make([]byte, len(want))
+			if k, err := io.ReadFull(hs.U, got); err != nil {
+				r.Violate(fmt.Sprintf("C25|padded-record|%s", truncStr(errClass(err), 60)), "%s: read %d of %d bytes: %v", what, k, len(want), err)
+				return
+			}
+			if !bytes.Equal(got, want) {
+				r.Violate("C25|padded-record|data-differs", "%s: the bytes delivered are not the bytes sent (first difference at %d)", what, firstDiffIndex(got, want))
+			}
+			r.Count("padded_records_read", 2)
+			r.Obs = "ok"
+			return
+		},
+	}
+}
+
+func firstDiffIndex(a, b []byte) int {
+	for i := range a {
+		if i >= len(b) || a[i] != b[i] {
+			return i
+		}
+	}
+	return len(a)
+}
